@@ -48,7 +48,8 @@ def correspondence(ctx):
     ctx.exhaustive = True
     for name in S.ALL:
         rng = ctx.rng("c08", name)
-        bench = B.Bench(name, rng, size=2 * L + 6)
+        bench = B.Bench(name, rng, size=2 * L + 6, respell=0.6)
+        B.probe_unrankable(ctx, "C08", bench)
         stream = "simplify:" + name
         if not bench.ok(2 * L + 2):
             ctx.stream(stream)["skipped"] = "pool too small"
@@ -75,10 +76,59 @@ def correspondence(ctx):
                       error=impl[4:] if impl.startswith("err:") else None)
             if impl != ans:
                 suspects.append((cons, line, impl, impl_c, ans, m))
+            ranks = [r for c, r in cons if c != "star"]
+            if len(set(ranks)) < len(ranks):
+                # the repeated version written in another spelling of the same version
+                objs2 = B.real_cons(bench, cons, m, respell=rng)
+                if any(a is not b and a.version is not b.version for a, b in zip(objs, objs2)):
+                    try:
+                        impl2_c = B.canon_cons(VersionConstraint.simplify(list(objs2)), inv_of)
+                        impl2 = "ok:" + B.cons_line(impl2_c)
+                    except Exception as e:  # noqa: BLE001
+                        impl2, impl2_c = "err:" + B.exc_name(e), None
+                    ctx.count(stream + ":respelled", key=line, nontrivial=True)
+                    if impl2 != ans:
+                        suspects.append((cons, line + " (a repeated version in another spelling)", impl2, impl2_c, ans, m))
+            if k % 3 == 0 and len(cons) >= 2:
+                _through_from_string(ctx, name, bench, cons, objs, ans, line, m, inv_of, rng)
         _judge(ctx, stream, bench, suspects)
         if name == "semver":
             ctx.sample({"line": lines[100], "model": answers[100], "scheme": name})
     _cross_scheme(ctx)
+
+
+def _through_from_string(ctx, name, bench, cons, objs, ans, line, m, inv_of, rng):
+    """`VersionRange.from_string(text, simplify=True)` with the constraints written in any order gives what
+    `simplify` gives on the version-sorted list"""
+    from univers.version_range import VersionRange
+    if S.rclass(name) is None:
+        return
+    stream = "from_string:" + name
+    sh = list(objs)
+    rng.shuffle(sh)
+    try:
+        text = "vers:%s/%s" % (S.rclass(name).scheme, "|".join(str(o) for o in sh))
+        plain = VersionRange.from_string(text)
+        if list(plain.constraints) != sorted(objs):
+            raise ValueError("the text does not say the same constraints")
+    except Exception:  # noqa: BLE001
+        ctx.count(stream, key=line, nontrivial=False, branch="text not usable")
+        return
+    try:
+        out = VersionRange.from_string(text, simplify=True)
+        want = VersionConstraint.simplify(sorted(objs))
+        impl = [str(c) for c in out.constraints]
+        exp = [str(c) for c in sorted(want)]
+    except Exception as e:  # noqa: BLE001
+        impl, exp = "err:" + B.exc_name(e), ans
+        if ans.startswith("err:"):
+            return
+    ctx.count(stream, key=line, nontrivial=True)
+    if impl != exp:
+        d = B.describe(bench, cons, m, objs=objs)
+        d.update({"text": text, "clause": "from_string(simplify=True) gives %s, simplify() on the version-sorted list %s" % (impl, exp),
+                  "python": "from univers.version_range import VersionRange as R; print(R.from_string(%r, simplify=True))" % text})
+        ctx.disagree(stream, line, str(impl), str(exp), True, d, spec=str(exp))
 
 
 def _judge(ctx, stream, bench, suspects):
